@@ -75,7 +75,7 @@ def worker(ctx, job):
 
 def run(ctx):
     quick = ctx.tier == 'quick'
-    L = 6 if quick else 10
+    L = 10 if quick else 18
     jobs = [{'kind': 'conv', 'n': n} for n in range(0, L + 1)]
     jobs += [{'kind': 'site', 'key': 2, 'data': 2, 'pttl': p} for p in (1, 2, 3)]
     ctx.bounds = {'pttl reply length': '0..%d bytes, every byte value' % L, 'call site': 'gen_restore_resp with 2-byte symbolic key/payload and 1..3 symbolic pttl bytes'}
